@@ -26,8 +26,16 @@ from .. import projects as P
 from .c02 import testpackages
 
 
-def canon_full(dump: Dict[str, Any]) -> str:
-    return json.dumps({k: [v["cls"], v["kind"], v["site"], v["bases"], v["mro"]] for k, v in dump.items()}, sort_keys=True)
+def canon_full(dump: Dict[str, Any], multi_sites: Any = ()) -> str:
+    """Objects are identified by definition site; the location (registry key) is part of the dump except for objects
+    re-exported by SEVERAL modules and their members - the property speaks of 'objects re-exported by a single module'."""
+    by_name = {v["name"]: v["site"] for v in dump.values()}
+    out = {}
+    for k, v in dump.items():
+        ident = json.dumps(v["site"]) + ("" if " " not in k.rsplit(".", 1)[-1] else "/superseded:" + k.rsplit(" ", 1)[-1])
+        loc = None if (v.get("top_site") and tuple(v["top_site"]) in multi_sites) else k
+        out[ident] = [v["cls"], v["kind"], loc, v.get("base_sites", []), [by_name.get(n) for n in v["mro"]]]
+    return json.dumps(out, sort_keys=True)
 
 
 def canon_hier(dump: Dict[str, Any]) -> str:
@@ -79,7 +87,8 @@ def run(ctx: Ctx) -> int:
         if len(rs) > 1:
             multi += 1
         cyclic = bool(proj["meta"].get("cyclic"))
-        canon = canon_hier if cyclic else canon_full
+        multi_sites = {tuple(x["site"]) for x in P.expected_reexports(proj, multi=True)}
+        canon = canon_hier if cyclic else (lambda d: canon_full(d, multi_sites))
         groups: Dict[str, List[List[int]]] = collections.defaultdict(list)
         for r in rs:
             groups[canon(r["real"]["dump"])].append(r["sched"])
@@ -160,7 +169,8 @@ def replay(ctx: Ctx, path: str) -> int:
     bad = False
     if "project" in o:
         proj = {**o["project"], "family": o.get("family", ""), "meta": {"cyclic": o.get("cyclic", False)}}
-        canon = canon_hier if o.get("cyclic") else canon_full
+        ms = {tuple(x["site"]) for x in P.expected_reexports(proj, multi=True)}
+        canon = canon_hier if o.get("cyclic") else (lambda d: canon_full(d, ms))
         outs = {canon(P.real_build(proj, s, ctx.scratch)["dump"]) for s in P.schedules(proj)}
         bad = len(outs) > 1
     else:
